@@ -216,7 +216,7 @@ pub fn run_c06(ctx: &mut Ctx) {
         },
         |i| json!({"fen": e4_decode(i).map(|p| p.fen())}),
     );
-    let n4: u64 = t.pick(2_000_000, 60_000_000);
+    let n4: u64 = t.pick(10_000_000, 120_000_000);
     let seed = ctx.seed;
     run_enum(
         ctx,
@@ -239,9 +239,9 @@ pub fn run_c06(ctx: &mut Ctx) {
         c06_position(&p, st)
     };
     let tc = |r: &RawRecipe| json!({"fen": build_raw(r).map(|p| p.fen())});
-    run_prop(ctx, "raw_placements_sparse", || raw_strategy(8), t.pick(300_000, 6_000_000), body, tc);
-    run_prop(ctx, "raw_placements_dense", || raw_strategy(31), t.pick(200_000, 4_000_000), body, tc);
-    run_prop(ctx, "raw_placements_kings_close", raw_close_strategy, t.pick(300_000, 6_000_000), body, tc);
+    run_prop(ctx, "raw_placements_sparse", || raw_strategy(8), t.pick(1_500_000, 12_000_000), body, tc);
+    run_prop(ctx, "raw_placements_dense", || raw_strategy(31), t.pick(1_000_000, 8_000_000), body, tc);
+    run_prop(ctx, "raw_placements_kings_close", raw_close_strategy, t.pick(1_500_000, 12_000_000), body, tc);
 }
 
 pub fn replay_c06(case: &Value) -> CaseResult {
@@ -440,9 +440,9 @@ pub fn run_c14(ctx: &mut Ctx) {
         c14_position(&p, r.extra, st)
     };
     let tc = |r: &MaterialRecipe| json!({"fen": build_material(r).map(|p| p.fen()), "extra": r.extra});
-    run_prop(ctx, "random_placements_sparse", || material_strategy(10, false), t.pick(300_000, 5_000_000), body, tc);
-    run_prop(ctx, "random_placements_dense", || material_strategy(62, false), t.pick(200_000, 3_000_000), body, tc);
-    run_prop(ctx, "random_placements_queen_heavy", || material_strategy(40, true), t.pick(100_000, 2_000_000), body, tc);
+    run_prop(ctx, "random_placements_sparse", || material_strategy(10, false), t.pick(1_500_000, 10_000_000), body, tc);
+    run_prop(ctx, "random_placements_dense", || material_strategy(62, false), t.pick(1_000_000, 6_000_000), body, tc);
+    run_prop(ctx, "random_placements_queen_heavy", || material_strategy(40, true), t.pick(500_000, 4_000_000), body, tc);
 }
 
 pub fn replay_c14(case: &Value) -> CaseResult {
